@@ -72,9 +72,9 @@ PROPS = {
     },
     "C13": {
         "engine": "kani", "module": "c13", "timeout": {"quick": 900, "thorough": 2400},
-        "functions": ["expressions::evaluate_binary_op_ast (via / into / where arms)", "functions::BuiltInFunction::call (Map, Filter, Abs, Min, Floor, ToBool, Len)", "functions::get_function_def", "functions::FunctionArity::can_accept (index passing)"],
+        "functions": ["expressions::evaluate_binary_op_ast (via / into / where arms)", "functions::BuiltInFunction::call (Map, Filter, Every, Some, Abs, Min, Floor, ToBool, Len)", "functions::get_function_def", "functions::FunctionArity::can_accept (index passing)"],
         "bounds": "lists of 0 or 2 numbers / booleans with symbolic contents; built-in callees abs, floor, min (index-accepting), to_bool, len",
-        "outside": "lambda and named recursive callees (Environment/HashMap, lambda bodies), reduce / every / some, sort_by / group_by, lists of other lengths, the f(x) call *expression* (Expr::Call is mis-modelled by Kani, DESIGN 2(12): application is the built-in's implementation on the same argument), FunctionDef::call's own depth guard / statistics / error context",
+        "outside": "lambda and named recursive callees (Environment/HashMap, lambda bodies), reduce, sort_by / group_by, lists of other lengths, the f(x) call *expression* (Expr::Call is mis-modelled by Kani, DESIGN 2(12): application is the built-in's implementation on the same argument), FunctionDef::call's own depth guard / statistics / error context",
         "assumptions": ["FunctionDef::call replaced by a dispatcher that keeps the arity check and calls the real BuiltInFunction::call of the callee on a constant selector for abs / min / floor / to_bool / len and fails the check for any other callee (util::stub_function_def_call_small_builtins)", "std::time::Instant::now stubbed with a fixed instant"],
     },
 }
